@@ -49,6 +49,14 @@ Definition chk_eval (c : ecase) : list N :=
    | None => [] end) ++
   (* 1: optimiser fidelity *)
   (match ec_opt c with Some g => if tree_eqb t' g then [] else [1%N] | None => [] end) ++
+  (* 15: when the implementation's optimised tree is not the model's: does the implementation's Eval still return
+         what the model-optimised tree means? (C10: a failing fold must stay an error at evaluation time) *)
+  (match ec_opt c, ec_eval c with
+   | Some g, Some o =>
+     if tree_eqb t' g then [] else
+     let '(_, _, gout) := o in
+     if mres_eqb (res_to_mres (snd (sem fetch test_custom t'))) gout then [] else [15%N]
+   | _, _ => [] end) ++
   (* 2: capacity decision (of Go's own optimised tree when available) *)
   (let tt := match ec_opt c with Some g => g | None => t' end in
    match compile_checked cfg tt with
